@@ -165,6 +165,9 @@ func genS(prop string) func(r *sim.Rng, tier string) any {
 					if x.T > 0 {
 						st.Op = "advance_to"
 						st.N = x.T + int64(pick(r, []int{-1, 1, 1, 3}))
+						if x.Window == "starting" && r.Bool(0.4) {
+							st.N = x.T // exactly ValidAfter: the certificate is valid from this second on
+						}
 						break
 					}
 				}
